@@ -183,6 +183,27 @@ type worker struct {
 
 func (w *worker) count(k string, n int64) { w.cr.Counts[k] += n }
 
+// running decides survivors that are not in a stable blocked state: goroutines that exist at every
+// poll of a 10 s window after the request ended (all resolvers returned, context cancelled) are
+// reported as running leaks; if they all went away in the meantime the check was only early.
+// Returns true when the case has been decided (violation recorded or clean).
+func (w *worker) running(gs []gdump.G, exclude []string, where string, detail map[string]any) bool {
+	left := gdump.Persisting(gs, patterns, exclude, 10*time.Second, 500*time.Millisecond)
+	if len(left) == 0 {
+		w.count("late_but_clean_leak_checks", 1)
+		return true
+	}
+	for _, g := range left {
+		w.ignore[g.ID] = true
+	}
+	detail["why"] = "goroutines started for the request keep running 10 s after it ended (" + where + "): not blocked, present in every dump"
+	detail["goroutines"] = dumpText(left)
+	detail["probe"] = w.name
+	w.cr.Violations = append(w.cr.Violations, violation{"running-" + leakSig(left) + "-after-" + where, detail})
+	w.count("running_leaks_observed", 1)
+	return true
+}
+
 func child(job, outPath string) {
 	cr := &childResult{Counts: map[string]int64{}}
 	defer func() {
@@ -431,7 +452,7 @@ func (w *worker) runDirect(op *opgen.Op, vars map[string]any, base univ.SeedPlan
 	gs, stable := gdump.WaitGone(patterns, exclude, w.ignore, 1500*time.Millisecond, 500*time.Millisecond)
 	if len(gs) > 0 {
 		if !stable {
-			w.cr.Inconcl = append(w.cr.Inconcl, "goroutines still changing after the request ended: "+op.Query)
+			w.running(gs, exclude, "direct-run", map[string]any{"case": cid})
 			return
 		}
 		for _, g := range gs {
@@ -554,7 +575,7 @@ func (w *worker) transports() {
 							"why": "goroutines started for the request are still alive after the " + tr + " request ended (" + mode + ")", "probe": w.name, "query": q, "goroutines": dumpText(gs)}})
 						w.count("transport_leaks_observed", 1)
 					} else if len(gs) > 0 {
-						w.cr.Inconcl = append(w.cr.Inconcl, "goroutines still changing after "+tr+" request")
+						w.running(gs, []string{"net/http.(*conn).serve", "httptest"}, trClass(tr), map[string]any{"query": q, "mode": mode})
 					} else {
 						w.count("transport_leak_checks_clean", 1)
 					}
@@ -624,9 +645,18 @@ func (w *worker) httpCase(base, id, q, tr, mode string) bool {
 
 func (w *worker) wsCase(base string, round int) {
 	for _, proto := range []string{"graphql-ws", "graphql-transport-ws"} {
-		for _, mode := range []string{"client-complete", "abrupt-close", "let-it-end", "silent-until-init-timeout", "server-close-in-flight", "server-close-in-flight", "server-close-in-flight"} {
+		for _, mode := range []string{"client-complete", "abrupt-close", "let-it-end", "silent-until-init-timeout", "server-close-in-flight", "server-close-in-flight", "server-close-in-flight", "subscription-directive-null"} {
 			d := websocket.Dialer{Subprotocols: []string{proto}}
 			var hdr http.Header
+			if mode == "subscription-directive-null" {
+				// the operation directive of the subscription answers (nil, nil) instead of calling next:
+				// there is no event stream to serve, the operation must end at once
+				wsN++
+				id := fmt.Sprint("ws", wsN)
+				runs.Store(id, &univ.Run{Plan: &univ.SeedPlan{Seed: uint64(wsN), MaxList: 2, ForceDir: map[string]int{`|opd,"x"`: 2}}})
+				defer runs.Delete(id)
+				hdr = http.Header{"X-Run": []string{id}}
+			}
 			if mode == "server-close-in-flight" {
 				// resolvers of the payload in flight take a few ms to wind down after the cancellation
 				wsN++
@@ -661,7 +691,7 @@ func (w *worker) wsCase(base string, round int) {
 					w.cr.Violations = append(w.cr.Violations, violation{"leak-after-websocket-" + mode, map[string]any{
 						"why": "goroutines of a websocket connection are still alive after the init timeout closed it (" + proto + ")", "probe": w.name, "goroutines": dumpText(gs)}})
 				} else if len(gs) > 0 {
-					w.cr.Inconcl = append(w.cr.Inconcl, "goroutines still changing after websocket init timeout")
+					w.running(gs, []string{"net/http.(*conn).serve"}, "websocket-"+mode, map[string]any{"protocol": proto})
 				} else {
 					w.count("ws_leak_checks_clean", 1)
 				}
@@ -675,6 +705,9 @@ func (w *worker) wsCase(base string, round int) {
 			sub := `subscription { ticks(n: 2) { vid rs } }`
 			if mode == "server-close-in-flight" {
 				sub = `subscription { ticks(n: 500) { vid rs bo { vid rs } } }`
+			}
+			if mode == "subscription-directive-null" {
+				sub = `subscription @opd(tag: "x") { ticks(n: 2) { vid } }`
 			}
 			c.WriteJSON(map[string]any{"type": start, "id": "1", "payload": map[string]any{"query": sub}})
 			c.SetReadDeadline(time.Now().Add(10 * time.Second))
@@ -731,7 +764,7 @@ func (w *worker) wsCase(base string, round int) {
 				w.cr.Violations = append(w.cr.Violations, violation{"leak-after-websocket-" + mode, map[string]any{
 					"why": "goroutines of a websocket connection are still alive after it was closed (" + mode + ", " + proto + ")", "probe": w.name, "goroutines": dumpText(gs)}})
 			} else if len(gs) > 0 {
-				w.cr.Inconcl = append(w.cr.Inconcl, "goroutines still changing after websocket close")
+				w.running(gs, []string{"net/http.(*conn).serve"}, "websocket-"+mode, map[string]any{"protocol": proto})
 			} else {
 				w.count("ws_leak_checks_clean", 1)
 			}
